@@ -30,7 +30,7 @@ TApiErr  == IsEv("env_apierr") /\ EnvApiErr(Log[l].on)
 TDisturb == IsEv("env_disturb") /\ EnvDisturb
 TCloud   == IsEv("cl_end") /\ LET x == Log[l] IN IF x.e = 0 \/ x.err THEN UNCHANGED vars ELSE CloudEnd(x.k, x.e, Rng(x.as))   \* a failed call of the fake has no effect
 TCall    == IsEv("rpc_call") /\ LET x == Log[l] IN RpcCall(x.r, x.k, x.p, x.c)
-TGetPod  == IsEv("k8s_getpod") /\ LET x == Log[l] IN GetPod(x.r, x.found, x.sticky)
+TGetPod  == IsEv("k8s_getpod") /\ LET x == Log[l] IN GetPod(x.r, x.found, x.sticky, x.chk)
 TPutB    == IsEv("put_begin") /\ LET x == Log[l] IN PutBegin(x.p, RecOf(x))
 TDelB    == IsEv("del_begin") /\ DelBegin(Log[l].p)
 TWrEnd   == l <= Len(Log) /\ Log[l].ev \in {"put_end", "del_end", "raw_put_end", "raw_del_end"} /\ l' = l + 1 /\ WriteEnd(Log[l].p, Log[l].ok)
@@ -39,7 +39,7 @@ TRawDel  == IsEv("raw_del_begin") /\ RawBegin(Log[l].p, NoRec)
 TRet     == IsEv("rpc_ret") /\ LET x == Log[l] IN RpcRet(x.r, x.ok, x.code, x.e, x.a)
 TGcCall  == IsEv("gc_call") /\ GcCall
 TLocal   == IsEv("k8s_localpods") /\ LocalPods(Rng(Log[l].live), Log[l].err)
-TExist   == IsEv("k8s_podexist") /\ LET x == Log[l] IN PodExist(x.p, x.exist, x.err)
+TExist   == IsEv("k8s_podexist") /\ LET x == Log[l] IN PodExist(x.p, x.exist, x.err, x.cons)
 TGcRet   == IsEv("gc_ret") /\ GcRet(Log[l].err)
 TObs     == IsEv("obs") /\ LET x == Log[l] IN Obs(DiskOf(x.disk), DiskOf(x.mem), OwnOf(x.own), CloudOf(x.cloud))
 TCrash   == IsEv("crash") /\ Crash
